@@ -306,7 +306,8 @@ struct SConf {
     host: (usize, usize, f64),
     /// None: the clone taken by `insert`; Some((shared, cfg)): `set_pre_host_limiter`
     pre: Option<(bool, (usize, usize, f64))>,
-    dual: bool,
+    /// 0: IPv4 only, 1: both listeners (default), 2: IPv6 only (IPv4 peers arrive v4-mapped at the [::] listener)
+    bind: u128,
     /// finite reset times in (0, FAR_MS) are crossed in real time
     sensitive: bool,
 }
@@ -356,9 +357,11 @@ async fn serve_once(sc: &SConf, conns: &[(u8, u64, u64, u64)]) -> Option<X> {
     }
     let data = builder.build();
     let mut descriptor = PortDescriptor::unsecure(port, data);
-    if !sc.dual {
-        descriptor = descriptor.ipv4_only();
-    }
+    descriptor = match sc.bind {
+        0 => descriptor.ipv4_only(),
+        2 => descriptor.ipv6_only(),
+        _ => descriptor,
+    };
     let shutdown = RunConfig::new().bind(descriptor).disable_ctl().execute().await;
 
     let mut results = Vec::new();
@@ -471,8 +474,8 @@ pub fn server(x: &X) -> X {
         },
         _ => return X::bad(),
     };
-    let dual = match s[3].as_n() { Some(0) => false, Some(1) => true, _ => return X::bad() };
-    let sc = SConf { path, host: (max, ce, reset), pre, dual, sensitive };
+    let bind = match s[3].as_n() { Some(b) if b <= 2 => b, _ => return X::bad() };
+    let sc = SConf { path, host: (max, ce, reset), pre, bind, sensitive };
     let mut conns = Vec::new();
     for e in match l[2].as_l() { Some(e) => e, None => return X::bad() } {
         match e.as_l() {
